@@ -56,4 +56,24 @@ def selectOK (ctors : List Ctor) : Select → Bool
     | none => false
   | .unknown _ => false
 
+/-- a parameter getter of x/margin/keeper/params.go -/
+inductive Getter where
+  | field (name : String)     -- `return k.GetParams(ctx).<name>`: the stored value, unconditionally
+  | unknown (src : String)    -- anything else (a default for zero, a clamp, …)
+  deriving Repr, DecidableEq
+
+/-- the stored field each getter must return as it is: what the model reads from `Params` -/
+def expectedGetters : List (String × Getter) := [
+  ("GetSafetyFactor", .field "SafetyFactor"),
+  ("GetMaxLeverageParam", .field "LeverageMax"),
+  ("GetPoolOpenThreshold", .field "PoolOpenThreshold"),
+  ("GetInterestRateMin", .field "InterestRateMin"),
+  ("GetEpochLength", .field "EpochLength"),
+  ("GetForceCloseFundPercentage", .field "ForceCloseFundPercentage"),
+  ("GetIncrementalInterestPaymentFundPercentage", .field "IncrementalInterestPaymentFundPercentage"),
+  ("GetMaxOpenPositions", .field "MaxOpenPositions"),
+  ("GetIncrementalInterestPaymentEnabled", .field "IncrementalInterestPaymentEnabled"),
+  ("IsWhitelistingEnabled", .field "WhitelistingEnabled"),
+  ("IsRowanCollateralEnabled", .field "RowanCollateralEnabled")]
+
 end Sif.Spec.C13.Keys
